@@ -12,7 +12,8 @@ import numpy
 PROPERTY = "C03"
 LEVEL = "exploration"
 NEED_EXT = True
-REQUIRED = ["refit.outputs", "refit.state", "same_seed.outputs", "global_seed_independence"]
+REQUIRED = ["refit.outputs", "refit.state", "same_seed.outputs", "global_seed_independence",
+            "refit.after_set_params"]
 RULE = ("fittable registered classes (23) x configurations x training-set pairs (A, B) differing in n, d, label set / "
         "vocabulary / categorical columns x {fit A, [query], fit B, fit A} x 3 seeds (thorough 12); thread-parallel "
         "configurations included; non-trivial = A and B differ in shape or label set; distinct = distinct (class, "
@@ -166,6 +167,56 @@ def run_case(case, ctx):
                                   "".join(hist), "; ".join(d[:3])), cfg=cfg)
             if _differ(A, B):
                 ctx.nontriv(spec.name, vi, hist, sub)
+        # ---- a hyper-parameter changed between two fits: nothing of the first configuration survives
+        from vrt.props.c01 import alt_value
+        keys = sorted(spec.alts)
+        for key in (keys[(sub + j) % len(keys)] for j in range(min(3, len(keys)))) if keys else ():
+            e = spec.make(vi)
+            try:
+                cur = e.get_params(deep=True).get(key, None)
+                if key not in e.get_params(deep=True):
+                    continue
+                val, ok = alt_value(spec, key, cur, None, e)
+                if not ok:
+                    continue
+                val2, _ = alt_value(spec, key, cur, None, spec.make(vi))
+            except Exception:
+                continue
+            cfg = {"class": spec.name, "variant": vi, "history": "A,set_params(%s),B" % key, "sub": sub}
+            try:
+                fresh = spec.make(vi)
+                fresh.set_params(**{key: val2})
+                numpy.random.seed(sub + 17)
+                spec.fit(fresh, _copy(B))
+            except Exception:
+                ctx.excluded("set_params history: this alternative value cannot be fitted")
+                continue
+            try:
+                numpy.random.seed(sub + 17)
+                spec.fit(e, _copy(A))
+                spec.outputs(e, spec.query(numpy.random.RandomState(9), A))
+                e.set_params(**{key: val})
+                numpy.random.seed(sub + 17)
+                spec.fit(e, _copy(B))
+                Q = spec.query(numpy.random.RandomState(9), B)
+                og, of = spec.outputs(e, Q), spec.outputs(fresh, Q)
+            except Exception as ex:
+                ctx.hit("refit.after_set_params")
+                ctx.violation(K + "refit/raised-after-set_params/%s" % type(ex).__name__,
+                              "fit A, set_params(%s=...), fit B raised %s: %s (a fresh instance with that value fits "
+                              "B)" % (key, type(ex).__name__, str(ex)[:120]), cfg=cfg)
+                continue
+            ctx.hit("refit.after_set_params")
+            bad = [m for m in of if m not in og or not same_out(of[m], og[m])]
+            if bad:
+                ctx.violation(K + "refit/outputs-differ-after-set_params", "after fit A, set_params(%s=...), fit B, %s "
+                              "differs from a fresh instance built with that value and fitted on B" % (key, bad[0]),
+                              cfg=cfg)
+            else:
+                d = state_diff(state(e), state(fresh))
+                stale = [x for x in d if "stale attribute" in x]
+                if stale:
+                    ctx.excluded("attribute of the previous configuration left behind without effect on outputs")
         # ---- determinism under the same global seed
         cfg = {"class": spec.name, "variant": vi, "sub": sub}
         try:
